@@ -19,7 +19,7 @@ KANI_ARGS = ["--no-assertion-reach-checks"]   # kani::cover! statements are unaf
 SUITES = {
     "ed25519": dict(flags={"modint", "le", "subgroup", "edw"}, PTP="crate::ed25519::Point", PENC="encode",
                     HLEN="64", HDR_OK="true", NEUTRAL_W0="Some(1)"),
-    "ristretto255": dict(flags={"modint", "le", "edw"}, PTP="crate::ristretto255::Point", PENC="encode",
+    "ristretto255": dict(flags={"modint", "le", "edw", "ristretto"}, PTP="crate::ristretto255::Point", PENC="encode",
                          HLEN="64", HDR_OK="true", NEUTRAL_W0="Some(0)"),
     "ed448": dict(flags={"gfgen", "le", "subgroup", "edw"}, PTP="crate::ed448::Point", PENC="encode",
                   HLEN="114", HDR_OK="true", NEUTRAL_W0="Some(1)"),
